@@ -1089,7 +1089,7 @@ def gen_path_case(rng, flavour=None, thorough=False):
         elif ggn_mode == 'list' and ntot >= 3:
             computed = sorted(rng.sample(range(1, ntot + 1), rng.randint(2, min(4, ntot))))
         elif ggn_mode == 'number' and ntot >= 2:
-            computed_nb = rng.randint(2, min(8, ntot))
+            computed_nb = min(ntot, rng.choice([2, 3, 4, 4, 5, 6, 8]))
     sim = {'raman_params': {'flag': srs, 'result_spatial_resolution': 10e3,
                             'solver_spatial_resolution': rng.choice([50, 100, 200] if thorough else [200, 500])},
            'nli_params': {'method': method, 'dispersion_tolerance': 1, 'phase_shift_tolerance': 0.1,
